@@ -8,7 +8,8 @@ def run(chk, ctx):
                        "counted again: same winners by name and same final tallies; and every election with withdrawn candidates is compared with the election "
                        "in which they are deleted: identical record by name; scope vs model: statuses and values")
     cc.run(chk, ctx, 'values', ORACLES, 500, 60000, families=['small', 'tie', 'nearquota', 'chain', 'withdrawn', 'withdrawn', 'mid', 'cross'], tweak=tweak,
-           extra=[('directed-ties', 300, 20000, ['scotland', 'scotland', 'scotland', 'wigm', 'meek', 'mpls', 'qpq', 'cfer'], ['cross', 'tie'])])
+           extra=[('directed-ties', 300, 20000, ['scotland', 'scotland', 'scotland', 'wigm', 'meek', 'mpls', 'qpq', 'cfer'], ['cross', 'tie']),
+                  ('directed-mpls-withdrawn', 200, 10000, ['mpls'], ['withdrawn'])])
     small_electorates(chk, ctx)
 
 def small_electorates(chk, ctx):
